@@ -1,4 +1,5 @@
 """Shared anchors and small MIR helpers used by several property rules."""
+import re
 from facts import AnalysisIncomplete, op_place
 
 LAYOUT_TRAIT = 'swiftness_air::layout::LayoutTrait'
@@ -446,3 +447,42 @@ def struct_signatures(db, fn, binding=None):
                     key = f'{adt.split("::")[-1]}.{k}'
                     d[key] = sorted(set(d.get(key, [])) | set(sig(fl.operand_leaves(o))))
     return d
+
+
+def call_sites_of(db, path, binding=None):
+    """every (caller fn, block, terminator) whose resolved callee is `path`"""
+    key = ('call_sites_of', path, tuple(sorted((binding or {}).items())))
+    memo = db.__dict__.setdefault('_site_memo', {})
+    if key not in memo:
+        out = []
+        for g in db.fns.values():
+            if not g.has_mir:
+                continue
+            for bi, t in g.calls():
+                if path in db.resolve(t['f'], binding or {}):
+                    out.append((g, bi, t))
+        memo[key] = out
+    return memo[key]
+
+
+def root_leaves(db, binding, root, fn, operand, depth=3):
+    """leaves of `operand` (in fn) expressed over the parameters of the function `root`: when fn is a helper that
+    root reaches, a parameter leaf 'aK.rest' is replaced by the leaves of the K-th argument at every call of the
+    helper (+ '.rest'). A staged rewrite (root -> stage -> step) keeps the same root-level leaves."""
+    import dataflow
+    lv = dataflow.Flow(db, fn, binding).operand_leaves(operand)
+    if fn.path == root or depth == 0:
+        return set(lv) if fn.path == root else set()
+    out = set()
+    sites = call_sites_of(db, fn.path, binding)
+    for lf in lv:
+        m = re.match(r'a(\d+)((?:\..*)?)$', lf)
+        if not m:
+            continue
+        k, rest = int(m.group(1)), m.group(2)
+        for g, bi, t in sites:
+            if k - 1 >= len(t.get('args', [])):
+                continue
+            for up in root_leaves(db, binding, root, g, t['args'][k - 1], depth - 1):
+                out.add(up + rest if re.match(r'a\d+', up) else up)
+    return out
